@@ -34,8 +34,11 @@ EXPLANATION = (
     "vectors of 1..3 words over {0, 1, 2^64-1}; src/mont.c (encode/decode, add, "
     "sub, mult with the dedicated P-256/P-384/P-521/Ed448 reductions and the "
     "generic one) on boundary operands for seven moduli, against Python's "
-    "modular arithmetic. Not decided: exactness of libgmp, the C arithmetic "
-    "beyond those boundary tables (monty_pow's windowing), that MR/Lucas as "
+    "modular arithmetic; src/modexp.c / modexp_utils.c: the exponent scanners "
+    "for every window size, scatter/gather for every index, word/byte "
+    "conversion around word boundaries, monty_pow = pow(b, e, m) on "
+    "window-boundary exponents for 1..3-word moduli. Not decided: exactness of "
+    "libgmp, the C arithmetic beyond those boundary tables, that MR/Lucas as "
     "coded are the mathematical tests.")
 
 
@@ -50,5 +53,7 @@ def run(check, ctx):
     # the custom back-end's C arithmetic: multi-word primitives and the Montgomery layer
     from . import c_mont
     c_mont.mont_tables(check, ctx, with_inverse=(ctx.tier == "thorough"))
+    from . import c_modexp
+    c_modexp.modexp_tables(check, ctx)
     check.undecided.append("exactness of any GMP / C Montgomery result; that Miller-Rabin and Lucas as coded are the "
                            "mathematical tests; the error bound of the Miller-Rabin schedule")
